@@ -23,8 +23,18 @@ Plan gen_c23(sk::Rng& r, Tier) {
         const auto c = r.below(100);
         if (c < 55) { op.k = "request"; op.a = {static_cast<std::int64_t>(r.below(3)), r.pick<std::int64_t>({0, 0, 1, 1, 2, 3, 4, 5, 6})}; }   // peer, chunk (0..4 held, 5 unknown, 6 expired)
         else if (c < 80) { op.k = "ack"; op.a = {static_cast<std::int64_t>(r.below(3)), static_cast<std::int64_t>(r.below(5)), static_cast<std::int64_t>(r.below(2))}; }
+        else if (c < 85) { op.k = "drop"; op.a = {static_cast<std::int64_t>(r.below(3)), static_cast<std::int64_t>(r.below(2))}; }   // the peer's connection goes away (close / reset) with whatever it had asked for
         else { op.k = "wait"; op.a = {r.pick<std::int64_t>({50, 400, 1100, 2500, 6000, 31000})}; }
         p.ops.push_back(op);
+    }
+    if (p.knobs["peers"] >= 2 && r.chance(1, 4)) {
+        // a request is still queued behind the global limit when its peer goes away; the slot frees later and the node tries to serve it
+        p.knobs["parallel"] = 1;
+        const std::int64_t t = p.knobs["timeout"] * 1000;
+        auto push = [&](const char* k, std::vector<std::int64_t> a) { Op o; o.k = k; o.a = std::move(a); p.ops.push_back(o); };
+        push("wait", {t + 3000});
+        push("request", {0, 0}); push("request", {1, 1}); push("drop", {1, static_cast<std::int64_t>(r.below(2))});
+        push("wait", {t + 2500}); push("wait", {7000}); push("wait", {1000});
     }
     if (r.chance(1, 3)) {
         // staggered transfers: a second upload starts shortly before the first one times out, then the peer asks for more
@@ -84,6 +94,7 @@ void exec_c23(const Plan& p, Ctx& ctx) {
         }
     };
 
+    std::int64_t dropped_at[3] = {-1, -1, -1};  // when the peer's connection last went away: CHUNK frames then in flight were never seen by the driver
     auto check_limits = [&](const char* when) {
         std::size_t active = 0, peak = 0;
         std::map<std::string, std::size_t> per;
@@ -118,13 +129,15 @@ void exec_c23(const Plan& p, Ctx& ctx) {
             // slots released: nothing outstanding that could still be alive => counter must be zero
             bool any_alive = false;
             for (auto& t : out) if (sk::now_ns() - t.seen_at < (timeout_s + 3) * kSec + 2 * p.knob("tick_ms", 1000) * kMs) any_alive = true;
+            // a transfer dispatched just before the peer went away may be counted although its frame was never seen here
+            if (dropped_at[pi] >= 0 && sk::now_ns() - dropped_at[pi] < (timeout_s + 3) * kSec + 2 * p.knob("tick_ms", 1000) * kMs) any_alive = true;
             if (!any_alive && cnt != 0) {
                 // give the node one more tick: pruning happens on tick
                 sk::sleep_ns(2 * p.knob("tick_ms", 1000) * kMs + kSec);
                 std::size_t again = 0;
                 rig.node.run([&](en::Node& n) { std::unique_lock<std::recursive_mutex> lock(n.scheduler_mutex_); auto it = n.active_uploads_per_peer_.find(key); again = it == n.active_uploads_per_peer_.end() ? 0 : it->second; });
                 absorb(pi);
-                bool alive2 = false;
+                bool alive2 = dropped_at[pi] >= 0 && sk::now_ns() - dropped_at[pi] < (timeout_s + 3) * kSec + 2 * p.knob("tick_ms", 1000) * kMs;
                 for (auto& t : out) if (sk::now_ns() - t.seen_at < (timeout_s + 3) * kSec + 2 * p.knob("tick_ms", 1000) * kMs) alive2 = true;
                 if (!alive2 && again != 0)
                     ctx.violate("C23.slot_leak", fmt("peer %d: every transfer was acknowledged or timed out, yet its in-use slot count is %zu (%s)", pi, again, when));
@@ -137,9 +150,26 @@ void exec_c23(const Plan& p, Ctx& ctx) {
 
     for (auto& op : p.ops) {
         ++ctx.ops_done;
+        if (op.k == "drop") {
+            const int di = static_cast<int>(op.at(0)) % npeers;
+            RigPeer& dp = *rig.peers[static_cast<std::size_t>(di)];
+            if (!dp.up) continue;
+            absorb(di);
+            dp.actor.call([&] { if (op.at(1)) { linger lg{1, 0}; ::setsockopt(dp.conn.fd, SOL_SOCKET, SO_LINGER, &lg, sizeof lg); } dp.conn.close_now(); });
+            dp.up = false;
+            dropped_at[di] = sk::now_ns();
+            ctx.fault(op.at(1) ? "peer_connection_reset" : "peer_connection_closed");
+            sk::sleep_ns(50 * kMs);
+            check_limits("after a peer went away");
+            continue;
+        }
         if (op.k == "wait") { sk::sleep_ns(op.at(0) * kMs); for (int pi = 0; pi < npeers; ++pi) rig.drain(pi); check_limits("after wait"); continue; }
         const int pi = static_cast<int>(op.at(0)) % npeers;
         RigPeer& peer = *rig.peers[static_cast<std::size_t>(pi)];
+        if (!peer.up) {  // a peer that went away comes back with a new session before it asks or acknowledges again
+            if (!rig.reconnect(pi)) { ctx.probe("reconnect_failed"); continue; }
+            ctx.boundary("peer_reconnected_after_going_away");
+        }
         if (op.k == "request") {
             const int k = static_cast<int>(op.at(1));
             absorb(pi);
@@ -186,7 +216,7 @@ Scenario make_c23() {
     s.real_components = {"Node (handle_request, process_pending_uploads, dispatch_upload, note_upload_start/end, prune_stale_uploads, handle_acknowledge, tick)", "SessionManager", "ChunkStore", "Message codec"};
     s.stub_components = {"OS: threads -> fibers, sockets -> simulated TCP, clock, entropy", "requesting peers are scripted processes"};
     s.assumptions = {"a transfer counts as possibly alive until upload_transfer_timeout + 3 s + two tick periods after the peer saw its CHUNK frame (pruning happens on ticks)"};
-    s.rule = "plan = global limit 0..4, per-peer limit 0..3, transfer timeout {2,5,30 s}, 1..3 peers, tick period, network knobs + 4..26 ops (request for held/unknown/expired chunk, positive/negative ack, waits up to past the timeout); non-trivial = a request repeated for a chunk whose transfer is still outstanding; distinct = plan hash";
+    s.rule = "plan = global limit 0..4, per-peer limit 0..3, transfer timeout {2,5,30 s}, 1..3 peers, tick period, network knobs + 4..26 ops (request for held/unknown/expired chunk, positive/negative ack, waits up to past the timeout, a peer's connection closed or reset with requests queued or transfers in flight, the peer coming back with a new session); in a quarter of the runs with two peers a request is still queued behind a global limit of 1 when its peer goes away and the slot frees later; non-trivial = a request repeated for a chunk whose transfer is still outstanding; distinct = plan hash";
     s.gen = gen_c23; s.exec = exec_c23; s.kernel_knobs = rig_knobs;
     s.quick_runs = 2500; s.thorough_runs = 100000; s.quick_secs = 50; s.thorough_secs = 900;
     add_swarm_variant(s, 15);
